@@ -206,7 +206,7 @@ for s0 in range(79):
         L = 56 + bpc(rs)
         boundary = s0 in (0, 2, 3, 15, 16, 28, 29, 53, 54, 66, 67, 78)
         pwb("c05_one_s%d_rs%d" % (s0, rs), L, s0, -1, -2 if (s0 + rs) % 2 else -1, rs,
-            "always" if (s0, rs) in ((0, 2), (16, 1), (78, 3)) else ("pool" if boundary or rs in (1, 2) else "thorough"), AR)
+            "always" if (s0, rs) in ((0, 2), (16, 1), (78, 1)) else ("pool" if (boundary and rs < 3) or rs in (1, 2) else "thorough"), AR)
 # bit 79
 pwb("c05_one_s79_rs2", 56 + bpc(2), 79, -1, -1, 2, "always", R)
 pwb("c05_one_s10_t79_rs2", 56 + bpc(2), 10, -1, 79, 2, "pool", R)
@@ -223,9 +223,11 @@ pwb("c05_two_s0_78_rs3", 56 + 2 * bpc(3), 0, 78, -1, 3, "thorough", AR, est=1800
 for i in INSTS:
     if i.name.startswith("c05_two_"):
         # measured: symbolic execution alone ~12 min, solver needs > 18 GB: best effort, one or two at a time
-        i.klass, i.cap_s, i.mem_gb, i.solver = "core", 3000, 10, "minisat"
-    if i.name == "c05_two_s15_16_rs2":
-        i.sched = "always"
+        # measured: the solver's array post-processing runs out of memory (40 GB) once waveform_at is checked on a
+        # two-channel packet: best effort, thorough only
+        i.klass, i.cap_s, i.mem_gb, i.solver = "best", 3000, 14, "minisat"
+    if i.name.startswith("c05_one_") and i.name.endswith("_rs3"):
+        i.klass = "best"  # same symptom for 3 samples per channel
 META["C05"] = {
     "pool_k": 8,
     "budget_s": {"thorough": 3 * 3600},
@@ -590,3 +592,33 @@ META["C08"] = {
                "bit-blasting back end (SipHash over a symbolic seed); the repository's unit tests enumerate these tables",
     "assumptions": ["8 Alpha16 and 71 PadWing board rows frozen in harness/det/src/oracle.rs at design time"],
 }
+
+
+# ------------------------------------------------------------------ C19 (row kernel only) ----
+CSV_FUNCS = ["alpha-g-vertices::main: `rows.into_iter().scan((None, 0), |..| ..)` closure (text extracted from main.rs at every run)",
+             "alpha-g-trg-scalers::main: the same closure of that binary", "TrgPacket::try_from / accessors (scalers rows)"]
+for N in (1, 2, 3, 4, 5):
+    add(name="c19_vertices_rows_%d" % N, prop="C19", crate="phys", expr="crate::c19::vertices_rows::<%d>" % N, unwind=N + 3, cap_s=1800,
+        mem_gb=6, est_s=120, family="csv_rows", funcs=CSV_FUNCS[:1],
+        witnesses=["two-decodable-events", "undecodable-event-first"] if N >= 3 else [],
+        sched="always" if N in (1, 3) else ("pool" if N == 2 else "thorough"), klass="core" if N <= 3 else "best",
+        params={"events": N, "per_event": "serial number, decodable or not, 32-bit timestamp, vertex present or not: all symbolic"})
+for N in (1, 2, 3):
+    add(name="c19_scalers_rows_%d" % N, prop="C19", crate="phys", expr="crate::c19::scalers_rows::<%d>" % N, unwind=max(N + 3, 6), cap_s=2400,
+        mem_gb=8, est_s=300, family="csv_rows", funcs=CSV_FUNCS[1:], witnesses=["two-decodable-events"] if N >= 2 else [],
+        sched="always" if N == 2 else "thorough", klass="core" if N <= 2 else "best",
+        params={"events": N, "per_event": "serial number, decodable or not, the 80 packet bytes: all symbolic"})
+META["C19"] = {
+    "pool_k": 1,
+    "bounds": "the row-producing `scan` closure of alpha-g-vertices (1..=3 events, thorough 5) and alpha-g-trg-scalers (2 events, thorough 3): "
+              "every combination of serial numbers, decodable/undecodable events, 32-bit timestamps (wrap-arounds included), vertex "
+              "present/absent resp. every accepted 80-byte TRG packet: one row per event in order with its serial number; an undecodable "
+              "event has empty fields; the time of a decodable event minus the time of the first decodable one is the sum of the 32-bit "
+              "wrapped differences between consecutive decodable events (in ticks); vertex / counter columns are the library's values.",
+    "outside": "everything else in the statement: ordering of files by initial timestamp, refusal of mixed runs / duplicate timestamps / "
+               "unknown extensions, event filtering, byte-identical output for every rayon thread count, CSV serialisation, and the "
+               "final int->float conversion and division by 62.5 MHz (the time column is compared as a tick count); more than 5 events",
+    "assumptions": ["the text of struct Row and of the scan statement is cut verbatim from main.rs; one mechanical edit: "
+                    "`(*cumulative as f64 / TRG_CLOCK_FREQ).get::<second>()` -> `f64::from_bits(*cumulative)`; rows are collected in a fixed array"],
+}
+
